@@ -329,3 +329,73 @@ def witness_argument(spec, res):
     except Exception:  # noqa
         return None
     return None
+
+
+# --------------------------------------------------------------------------
+# what each recoder of the library is documented to do
+
+L448 = 2 ** 446 - 13818066809895115352007386748515426880336692474882178609894547503885
+
+
+def _sc(top_lo, top_hi):
+    return Spec("signed", 5, "scalar", ["acc", "cc"], -15, 16, top_lo, top_hi, buf="acc_len")
+
+
+SIGNED = {      # C04 (a)
+    "ed25519": {"recode_scalar": _sc(0, 4)},
+    "p256": {"recode_scalar": _sc(0, 2)},
+    "secp256k1": {"recode_scalar": _sc(0, 2),
+                  "recode_u128": Spec("signed", 5, "u128", ["x", "cc"], -15, 16, 0, 8, value_bits=128)},
+    "jq255e": {"recode_u128": Spec("signed", 5, "u128", ["x", "cc"], -15, 16, 0, 8, value_bits=128)},
+    "jq255s": {"recode_scalar": _sc(0, 1)},
+    "ed448": {"recode_scalar": _sc(0, 2)},
+    "gls254": {"recode5_u128": Spec("signed", 5, "u128", ["x", "cc"], -15, 16, 0, 8, value_bits=128),
+               "recode4_u128": Spec("signed", 4, "u128", ["x", "cc"], -7, 8, 0, 8, value_bits=127),
+               "recode5_u64": Spec("signed", 5, "u64", ["x", "cc"], -15, 16, 0, 16, value_bits=64),
+               "recode3_u128": Spec("signed", 3, "u128", ["x", "cc"], -3, 4, 0, 4, value_bits=128)},
+}
+NAFS = {        # C10
+    "ed25519": {"recode_scalar_NAF": Spec("naf", 1, "scalar", ["x"]),
+                "recode_u128_NAF": Spec("naf", 1, "u128", ["y"], value_bits=128)},
+    "p256": {"recode_scalar_NAF": Spec("naf", 1, "scalar", ["x"]),
+             "recode_u129_NAF": Spec("naf", 1, "u129", ["y"], value_bits=129)},
+    "secp256k1": {"recode_scalar_NAF": Spec("naf", 1, "scalar", ["x"]),
+                  "recode_u128_NAF": Spec("naf", 1, "u128", ["y"], value_bits=128)},
+    "jq255e": {"recode_scalar_NAF": Spec("naf", 1, "scalar", ["x"]),
+               "recode_u128_NAF": Spec("naf", 1, "u128", ["y"], value_bits=128)},
+    "jq255s": {"recode_scalar_NAF": Spec("naf", 1, "scalar", ["x"]),
+               "recode_u128_NAF": Spec("naf", 1, "u128", ["y"], value_bits=128)},
+    "ed448": {"recode_scalar_NAF": Spec("naf", 1, "scalar", ["x"]),
+              "recode_halfwidth_NAF": Spec("naf", 1, "bytes28", ["x"], value_bits=224)},
+}
+
+
+def scalar_order(mir, module):
+    if module == "ed448":
+        return L448
+    for nm in mir.by_last.get("set_mul", []):
+        if nm.startswith(module + "::<impl"):
+            m = re.search(r"ModInt256(?:ct)?<([^>]*)>", mir.header(nm))
+            if m:
+                ws = []
+                for w in m.group(1).split(","):
+                    w = w.strip()
+                    ws.append((1 << 64) - 1 if w == "u64::MAX" else (1 << 32) - 1 if w == "u32::MAX" else int(w))
+                return sum(w << (64 * i) for i, w in enumerate(ws))
+    return None
+
+
+def reference_digits_ok(spec, n, digits):
+    """native digits against the contract"""
+    v = sum(d << (spec.w * i) for i, d in enumerate(digits))
+    if v != n:
+        return False, "sum of digits * 2^(w*i) = %#x, argument = %#x" % (v, n)
+    for i, d in enumerate(digits):
+        if spec.kind == "naf":
+            if d != 0 and (d % 2 == 0 or abs(d) > 15):
+                return False, "digit %d = %d is not a wNAF digit" % (i, d)
+        else:
+            lo, hi = (spec.tlo, spec.thi) if i == len(digits) - 1 else (spec.lo, spec.hi)
+            if not lo <= d <= hi:
+                return False, "digit %d = %d outside [%d, %d]" % (i, d, lo, hi)
+    return True, ""
